@@ -91,7 +91,7 @@ def run(ck):
         for s, o in res:
             is_ok = isinstance(o, Enum) and not isz(o.disc) and o.disc == 0
             if is_ok:
-                ck.decide(f'Frame::frame: collinear {which} points are never accepted', eng, list(s.pc), z3.BoolVal(True), ccase, abstract=True)
+                ck.decide(f'Frame::frame: collinear {which} points are never accepted', eng, list(s.pc), z3.BoolVal(True), ccase, abstract=True, nomodel_case=(lambda w: lambda m=None: dict(clause='collinear_' + w))(which))
             else:
                 err = eng.deref(s, o.items[0]) if o.items else None
                 err = err.items[0] if isinstance(err, BoxV) else err
